@@ -129,11 +129,13 @@ func (f *faultConn) cutLocked(report bool) bool {
 	}
 	f.closed = true
 	facts := f.factsLocked()
-	f.Conn.Close()
-	f.cond.Broadcast()
+	// recorded BEFORE the connection is closed: whatever the drop causes at the other end
+	// comes later in the global order
 	if report && f.onCut != nil {
 		f.onCut(facts)
 	}
+	f.Conn.Close()
+	f.cond.Broadcast()
 	return true
 }
 
